@@ -2,6 +2,8 @@ import MesaModel.Proofs.LegacyC08
 import MesaModel.Proofs.LegacyNetState
 import MesaModel.Proofs.LegacyCalls
 import MesaModel.Proofs.LegacyIndex
+import MesaModel.Proofs.LegacySelect
+import MesaModel.Proofs.LegacyDraws
 
 /-!
 # C08 — legacy grids: pos, cell contents, empties and empty_mask never disagree
@@ -231,6 +233,146 @@ theorem C08_indexing_shows_cells (g : Grid) (hw : 0 < g.w) (hh : 0 < g.h) :
   ⟨getItem2_inGrid g hw hh, getItem2_full g hw, getItem2_column g hh, getItem2_int_int g, getColumn_spec g hw,
    fun ps cs h => getMany_ok g hw hh ps cs h⟩
 
+/-! ## `coord_iter` and `select_cells` (the views built on iteration and on `empty_mask`)
+
+`Grid.coordIter`, `Grid.selectCells`, `Layers` are in `Model/LegacySelect.lean`; `Grid.Candidate` (in the grid, in every mask,
+empty if `only_empty`, every condition holds) and `Extreme.valid` (the layer exists, the mode is `highest` / `lowest`) in
+`Proofs/LegacySelect.lean`. -/
+
+/-- **`coord_iter()` shows every cell of the grid exactly once, in increasing `(x, y)` order, with its content**, and it
+    agrees with `pos`: an agent's `pos` is the coordinate of the one entry that lists it -/
+theorem C08_coord_iter_shows_every_cell_once (g : Grid) (hi : Inv g) :
+    SortedSet (g.coordIter.map (·.2)) ∧ (g.coordIter.map (·.2)).Nodup ∧
+    (∀ l c, (l, c) ∈ g.coordIter ↔ g.inGrid c ∧ l = g.content c) ∧
+    (∀ a p, g.pos a = some p ↔ ∃ l, (l, p) ∈ g.coordIter ∧ a ∈ l) := by
+  refine ⟨?_, ?_, mem_coordIter g, coordIter_pos g hi⟩
+  · rw [coordIter_coords]; exact sorted_allCells g
+  · rw [coordIter_coords]; exact (sorted_allCells g).nodup
+
+/-- **after every history `select_cells(only_empty=True)` is `empties`**: the list selected through `empty_mask` is the
+    very list `sorted(grid.empties)` gives at that moment — whether `empties` was built before, during or never in the
+    history — for all sizes, torus flags, both cell disciplines, any layer values -/
+theorem C08_select_only_empty_is_empties_all_histories (w h : Int) (hw : 1 ≤ w) (hh : 1 ≤ h) (torus multi : Bool) (cutoff : Nat)
+    (ops : List Op) (hok : HistOk (init w h torus multi cutoff) ops) (ls : Layers) :
+    (run (init w h torus multi cutoff) ops).selectCells ls [] true [] [] =
+      .ok (run (init w h torus multi cutoff) ops).readEmpties.2 := by
+  have hi := C08_views_agree_all_histories w h hw hh torus multi cutoff ops hok
+  rw [selectCells_only_empty _ hi, (C08_empties_exact_built_or_not _ hi).2.2.1]
+
+/-- **`select_cells` selects exactly**: with masks, `only_empty` and conditions on layers that exist (no extreme values) the
+    result is the strictly `(x, y)`-sorted list of the cells of the grid that lie in every mask, hold no agent if `only_empty`,
+    and satisfy every condition -/
+theorem C08_select_cells_exact (g : Grid) (hi : Inv g) (ls : Layers) (masks : List CMask) (onlyEmpty : Bool) (conds : List Cond)
+    (hv : ∀ c ∈ conds, c.layer < ls.n) :
+    ∃ l, g.selectCells ls masks onlyEmpty conds [] = .ok l ∧ SortedSet l ∧ ∀ p, p ∈ l ↔ g.Candidate ls masks onlyEmpty conds p :=
+  selectCells_exact g hi ls masks onlyEmpty conds hv
+
+/-- **an extreme value keeps exactly the candidates that no candidate beats** (`highest`: a maximal value of the layer among
+    the candidates, `lowest`: a minimal one; all ties are kept) -/
+theorem C08_select_extreme_value (g : Grid) (hi : Inv g) (ls : Layers) (masks : List CMask) (onlyEmpty : Bool) (conds : List Cond)
+    (hv : ∀ c ∈ conds, c.layer < ls.n) (i : Nat) (hl : i < ls.n) (high : Bool) :
+    ∃ l, g.selectCells ls masks onlyEmpty conds [⟨i, if high then .highest else .lowest⟩] = .ok l ∧ SortedSet l ∧
+      ∀ p, p ∈ l ↔ g.Candidate ls masks onlyEmpty conds p ∧ ∀ q, g.Candidate ls masks onlyEmpty conds q →
+        if high then ls.data i q ≤ ls.data i p else ls.data i p ≤ ls.data i q :=
+  selectCells_extreme g hi ls masks onlyEmpty conds hv i hl high
+
+/-- **any chain of extreme values narrows, never to nothing**: the result is a sub-list of the candidates (same order), and
+    if there is a candidate at all, a cell is selected -/
+theorem C08_select_extremes_narrow (g : Grid) (hi : Inv g) (ls : Layers) (masks : List CMask) (onlyEmpty : Bool) (conds : List Cond)
+    (hv : ∀ c ∈ conds, c.layer < ls.n) (exts : List Extreme) (hx : ∀ e ∈ exts, e.valid ls) :
+    ∃ l0 l, g.selectCells ls masks onlyEmpty conds [] = .ok l0 ∧ g.selectCells ls masks onlyEmpty conds exts = .ok l ∧
+      l.Sublist l0 ∧ (l0 ≠ [] → l ≠ []) :=
+  selectCells_narrow g hi ls masks onlyEmpty conds hv exts hx
+
+/-- `select_cells` raises exactly when a condition or an extreme value names a layer that does not exist (KeyError) or an
+    extreme value has a mode other than `highest` / `lowest` (ValueError) — also when no cell is left to take an extreme of -/
+theorem C08_select_rejects_exactly (g : Grid) (ls : Layers) (masks : List CMask) (onlyEmpty : Bool) (conds : List Cond)
+    (exts : List Extreme) :
+    (∃ e, g.selectCells ls masks onlyEmpty conds exts = .error e) ↔
+      (∃ c ∈ conds, ¬ c.layer < ls.n) ∨ ∃ x ∈ exts, ¬ x.valid ls :=
+  selectCells_error g ls masks onlyEmpty conds exts
+
+/-- **the empty cells around a position** (`select_cells(masks=get_neighborhood_mask(…), only_empty=True)`, the idiom for
+    "move to a free neighbouring cell"): exactly the cells of the grid in range of the centre (C09's `InRange`; the centre by
+    flag) that hold no agent -/
+theorem C08_select_empty_cells_in_range (g : Grid) (hi : Inv g) (hw : 0 < g.w) (hh : 0 < g.h) (k : NKey) (cells : List Coord)
+    (hk : nbhdCompute g.dim k = .ok cells) (ls : Layers) :
+    ∃ l, g.selectCells ls [nbhdMask cells] true [] [] = .ok l ∧ SortedSet l ∧
+      ∀ p, p ∈ l ↔ g.inGrid p ∧ (p = k.pos → k.ic = true) ∧ (p ≠ k.pos → InRange g.dim k.pos k.moore k.r p) ∧ g.content p = [] := by
+  obtain ⟨l, h1, h2, h3⟩ := selectCells_exact g hi ls [nbhdMask cells] true [] (by simp)
+  refine ⟨l, h1, h2, fun p => ?_⟩
+  rw [h3 p]
+  have hmem := (orth_spec g.dim hw hh k cells hk).2 p
+  simp only [Grid.Candidate, List.mem_singleton, forall_eq, nbhdMask, decide_eq_true_eq, hmem, forall_const, List.not_mem_nil,
+    false_imp_iff, implies_true, and_true]
+  constructor
+  · rintro ⟨hp, ⟨_, h4, h5⟩, h6⟩; exact ⟨hp, h4, h5, h6⟩
+  · rintro ⟨hp, h4, h5, h6⟩; exact ⟨hp, ⟨hp, h4, h5⟩, h6⟩
+
+/-! ## which draws the random movers consume, and over which ordered list
+
+`agent.random` is a script of raw draws (`_randbelow(n)` = next draw `% n`); these theorems pin down how many draws each mover
+takes, in which order, and which list the last draw indexes — what a seeded run depends on. -/
+
+/-- **`selection="random"`**: exactly one draw `x`; the agent is moved to the offer `pos[x % len(pos)]` (offers in the order
+    given); an exhausted generator raises before anything changes -/
+theorem C08_moveToOneOf_random_draws (g : Grid) (a : Aid) (ps : List Coord) (hne : ps ≠ []) (he : Grid.HandleEmpty) :
+    g.moveToOneOf a ps .random he [] = (g, .err .script) ∧
+    ∀ x xs, ∃ q, ps[x % ps.length]? = some q ∧ g.moveToOneOf a ps .random he (x :: xs) = g.move a q := by
+  have hemp : ps.isEmpty = false := by cases ps <;> simp_all
+  obtain ⟨h0, h1⟩ := chooseOneOf_random g a ps hne
+  refine ⟨by simp [Grid.moveToOneOf, hemp, h0], fun x xs => ?_⟩
+  obtain ⟨q, hq, hc⟩ := h1 x xs
+  exact ⟨q, hq, by simp [Grid.moveToOneOf, hemp, hc]⟩
+
+/-- **the tie list of `closest`**: the scan collects exactly the offers at minimal distance from the agent, each as often as it
+    was offered, in the order scanned (= the shuffled order) -/
+theorem C08_closest_scan_is_min_filter (g : Grid) (cur : Coord) (ps : List Coord) :
+    g.closestScan cur ps none [] = ps.filter (g.isClosest cur ps) ∧
+    (∀ t, t ∈ ps.filter (g.isClosest cur ps) ↔ t ∈ ps ∧ ∀ y ∈ ps, g.distSq t cur ≤ g.distSq y cur) ∧
+    (ps ≠ [] → ps.filter (g.isClosest cur ps) ≠ []) :=
+  ⟨closestScan_filter g cur ps, fun t => by simp [Grid.isClosest], exists_closest g cur ps⟩
+
+/-- **`selection="closest"` for a placed agent**: `len(pos) - 1` draws shuffle the offers (CPython's Fisher–Yates, a
+    permutation), the next draw `x` indexes the tie list of the *shuffled* offers — `ties[x % len(ties)]` —, later draws are
+    never looked at; with fewer than `len(pos)` draws the generator is exhausted and nothing changes -/
+theorem C08_closest_draws_and_tie_list (g : Grid) (a : Aid) (cur : Coord) (hcur : g.pos a = some cur) (ps : List Coord)
+    (hne : ps ≠ []) (he : Grid.HandleEmpty) (s : Grid.Script) :
+    (s.length < ps.length → g.moveToOneOf a ps .closest he s = (g, .err .script)) ∧
+    (ps.length ≤ s.length → ∃ ps' x q, Grid.shuffle ps s = some (ps', s.drop (ps.length - 1)) ∧ ps'.Perm ps ∧
+      s[ps.length - 1]? = some x ∧
+      (ps'.filter (g.isClosest cur ps'))[x % (ps'.filter (g.isClosest cur ps')).length]? = some q ∧
+      g.moveToOneOf a ps .closest he s = g.move a q) := by
+  have hemp : ps.isEmpty = false := by cases ps <;> simp_all
+  obtain ⟨h1, h2⟩ := chooseOneOf_closest g a cur hcur ps hne s
+  refine ⟨fun h => by simp [Grid.moveToOneOf, hemp, h1 h], fun h => ?_⟩
+  obtain ⟨ps', x, q, e1, e2, e3, e4, e5⟩ := h2 h
+  exact ⟨ps', x, q, e1, e2, e3, e4, by simp [Grid.moveToOneOf, hemp, e5]⟩
+
+/-- **`move_to_empty`: which draws**.  Full grid: `No empty cells`.  At most `cutoff` empty cells: one draw `x`, the target is
+    `sorted(empties)[x % n]`.  More: pairs of draws `(x, y)` — `x` first — until the cell `(x % width, y % height)` is empty:
+    the target is the cell of the first successful attempt and every earlier attempt hit an occupied cell; if the script ends
+    first (every complete attempt having failed) the generator is exhausted.  In every case the rest is `remove_agent` +
+    `place_agent` on the grid with `empties` built. -/
+theorem C08_moveToEmpty_draws (g : Grid) (hi : Inv g) (a : Aid) (s : Grid.Script) :
+    (g.buildEmpties = [] → g.moveToEmpty a s = (g.readEmpties.1, .err .noEmpty)) ∧
+    (g.buildEmpties ≠ [] → g.buildEmpties.length ≤ g.cutoff →
+      (s = [] → g.moveToEmpty a s = (g.readEmpties.1, .err .script)) ∧
+      ∀ x xs, s = x :: xs → ∃ q, g.buildEmpties[x % g.buildEmpties.length]? = some q ∧
+        g.moveToEmpty a s = removePlace g.readEmpties.1 a q) ∧
+    (g.buildEmpties ≠ [] → g.cutoff < g.buildEmpties.length →
+      (g.pickLoop s = none → g.moveToEmpty a s = (g.readEmpties.1, .err .script) ∧
+        ∀ j, 2 * j + 1 < s.length → ∃ (x' y' : Nat), s[2 * j]? = some x' ∧ s[2 * j + 1]? = some y' ∧
+          g.isCellEmpty ((x' : Int) % g.w, (y' : Int) % g.h) = false) ∧
+      ∀ q, g.pickLoop s = some q → g.moveToEmpty a s = removePlace g.readEmpties.1 a q ∧
+        ∃ (k x y : Nat), s[2 * k]? = some x ∧ s[2 * k + 1]? = some y ∧ q = ((x : Int) % g.w, (y : Int) % g.h) ∧
+          g.isCellEmpty q = true ∧
+          ∀ j, j < k → ∃ (x' y' : Nat), s[2 * j]? = some x' ∧ s[2 * j + 1]? = some y' ∧
+            g.isCellEmpty ((x' : Int) % g.w, (y' : Int) % g.h) = false) := by
+  obtain ⟨h1, h2, h3⟩ := moveToEmpty_draws g hi a s
+  refine ⟨h1, h2, fun hne hgt => ⟨fun hp => ⟨(h3 hne hgt).1 hp, pickLoop_none g s hp⟩,
+    fun q hp => ⟨(h3 hne hgt).2 q hp, pickLoop_draws g s q hp⟩⟩⟩
+
 /-! ## NetworkGrid as a space of its own (beyond the four classes the statement names: same agreement, same style)
 
 `Net` (Model/LegacyNbhd.lean) models `NetworkGrid.place_agent / remove_agent / move_agent` (after the NG1 repair)
@@ -339,6 +481,48 @@ example : (nstep (nrun (Net.init 3 []) [.place 0 1]) (.move 0 7)).2 = .err .key 
 example : (nrun (Net.init 3 []) [.place 0 1, .move 0 7]).pos 0 = some 1 := by decide
 example : (nrun (Net.init 3 []) [.place 0 1, .move 0 7]).content 1 = [0] := by decide
 example : (nrun (Net.init 3 []) [.place 0 1, .place 1 1, .move 0 1]).content 1 = [1, 0] := by decide
+
+/-- `coord_iter` on a 2x2 MultiGrid: four entries in (x, y) order, the stacked cell listed with both agents -/
+example : (run (init 2 2 false true 13) [.place 0 (1, 0), .place 1 (1, 0)]).coordIter =
+    [([], (0, 0)), ([], (0, 1)), ([0, 1], (1, 0)), ([], (1, 1))] := by decide
+
+/-- `select_cells` on a 3x2 grid with agent 0 on (1, 1) and layer 0 = 5 on (0, 0) and (2, 1), 9 on (1, 1): the highest value
+    among the *empty* cells is 5, attained twice; without `only_empty` it is 9; an unknown layer / mode raises; extreme values
+    of an empty selection select nothing -/
+def demoLayers : Layers := { n := 2, data := fun i c => if i = 0 then (if c = (1, 1) then 9 else if c = (0, 0) ∨ c = (2, 1) then 5 else 0) else 0 }
+
+example : (run (init 3 2 false false 12) [.place 0 (1, 1)]).selectCells demoLayers [] true [] [⟨0, .highest⟩] = .ok [(0, 0), (2, 1)] := by
+  rfl
+example : (run (init 3 2 false false 12) [.place 0 (1, 1)]).selectCells demoLayers [] false [] [⟨0, .highest⟩] = .ok [(1, 1)] := by
+  rfl
+example : (run (init 3 2 false false 12) [.place 0 (1, 1)]).selectCells demoLayers [] true [⟨0, .ge, 5⟩] [] = .ok [(0, 0), (2, 1)] := by
+  rfl
+example : (init 3 2 false false 12).selectCells demoLayers [] false [⟨0, .ge, 100⟩] [⟨0, .highest⟩, ⟨1, .lowest⟩] = .ok [] := by rfl
+example : (init 3 2 false false 12).selectCells demoLayers [] false [] [⟨0, .highest⟩, ⟨1, .other⟩] = .error .value := by rfl
+example : (init 3 2 false false 12).selectCells demoLayers [] false [⟨5, .ge, 1⟩] [] = .error .key := by rfl
+example : (⟨0, .highest⟩ : Extreme).valid demoLayers := by simp [Extreme.valid, demoLayers]
+/-- the hypotheses of `C08_select_empty_cells_in_range` are satisfiable: the empty cells next to (0, 0), whose neighbour (0, 1) is taken -/
+example : nbhdCompute (run (init 3 2 false false 12) [.place 0 (0, 1)]).dim ⟨(0, 0), true, false, 1⟩ = .ok [(0, 1), (1, 0), (1, 1)] := by
+  rfl
+example : (run (init 3 2 false false 12) [.place 0 (0, 1)]).selectCells demoLayers [nbhdMask [(0, 1), (1, 0), (1, 1)]] true [] [] =
+    .ok [(1, 0), (1, 1)] := by rfl
+
+/-- ties among the closest offers: from (2, 2) the offers (2, 3), (0, 0), (3, 2) have two cells at distance 1; the draws 1, 0
+    shuffle the offers, the third draw picks from the tie list of the shuffled offers: (2, 3).  With two draws only the generator
+    is exhausted and nothing moves.  (The same lines run against the real classes: corpus/C08/R3_draws_and_ties.ops.) -/
+example : (run (init 5 5 false true 27) [.place 0 (2, 2), .moveToOneOf 0 [(2, 3), (0, 0), (3, 2)] .closest .none [1, 0, 1]]).pos 0
+    = some (2, 3) := by decide
+example : (step (run (init 5 5 false true 27) [.place 0 (2, 2)]) (.moveToOneOf 0 [(2, 4), (0, 0), (3, 3)] .closest .none [1, 0])).2
+    = .err .script := by decide
+example : (run (init 5 5 false true 27) [.place 0 (2, 2), .moveToOneOf 0 [(2, 4), (0, 0), (3, 3)] .random .none [7]]).pos 0
+    = some (0, 0) := by decide
+/-- the tie list keeps multiplicity and scan order -/
+example : (init 5 5 false true 27).closestScan (2, 2) [(3, 2), (0, 0), (2, 3), (3, 2)] none [] = [(3, 2), (2, 3), (3, 2)] := by decide
+/-- `move_to_empty` above the cutoff: a 6x6 grid (cutoff 31) with agent 0 on (1, 1): the pair (7, 13) denotes the occupied (1, 1),
+    the pair (2, 3) is free -/
+example : (run (init 6 6 false false 31) [.place 0 (1, 1), .moveToEmpty 0 [7, 13, 2, 3, 5]]).pos 0 = some (2, 3) := by decide
+/-- … and below it (3x3, cutoff 18): the draw 5 indexes the sorted list of the 8 empty cells -/
+example : (run (init 3 3 false false 18) [.place 0 (1, 1), .moveToEmpty 0 [5]]).pos 0 = some (2, 0) := by decide
 
 /-- the hypotheses are satisfiable by a non-trivial history: `empties` read mid-history, a wrapped move, a
     rejected move, both random movers -/
